@@ -169,6 +169,20 @@ def run(tier):
             rr.append({"p": p + 1, "n": n, "t": t, "c": intern(code.encode()), "sm": sm})
         events.append({"run": i, "style": style, "recs": rr, "rows": parse_rows(r.out, intern, style),
                        "code": 999 if r.timed_out else r.code, "empty": intern(b"")})
+    # default styles, classic output: the function-context header line (`git grep -W`: path=N=code) must name its file
+    f = os.path.join(stubdir, "ctxhdr.txt")
+    with open(f, "wb") as fh:
+        fh.write(b"src/co-7-fig.rs=12=fn f() {\nsrc/co-7-fig.rs:13:  foo\n")
+    r = core.run_delta(["--no-gitconfig", "--width", "120", "git", "grep", "-W", "-n", "foo"], b"",
+                       env={"PATH": binpath + ":/usr/bin:/bin", "STUB_OUT": f})
+    os.unlink(f)
+    vis = [lexer.strip_ansi(b).decode("utf-8", "replace") for b in r.out.split(b"\n")]
+    hdr_rows = [v for v in vis if "fn f() {" in v]
+    if r.code != 0 or len(hdr_rows) != 1:
+        raise core.ToolError(f"the function-context header line was not found once in the output: {vis[:6]}")
+    if "src/co-7-fig.rs" not in hdr_rows[0]:
+        V.violation("classic-context-header-without-path", f"the function-context header line is shown as {hdr_rows[0].strip()!r}: without its path",
+                    {"run": r.to_json()})
     failed, tr = tlc.validate_trace("Trace_Grep", events)
     log(f"[{PID}] {len(events)} grep result streams judged by TLC (Trace_Grep), {len(failed)} rejected")
     for f in failed:
